@@ -20,7 +20,7 @@ import (
 //   * the loaders that can see a name: the global loader always; module M when the context's loader is M's loader or the
 //     dependency loader, and the name starts with M.
 //
-// classes: found-without-file, missing-with-file, case-sensitive, wrong-name, parsed-twice, absent-side-effect,
+// classes: has-without-file, has-misses-file (HasEntry of a file loader against the derived paths), found-without-file, missing-with-file, case-sensitive, wrong-name, parsed-twice, absent-side-effect,
 // error-not-located, definition-not-from-file, unstable, fault; misnamed-no-line and duplicate-redefine (known findings) are
 // failures of the `strict` op only.
 
@@ -381,6 +381,56 @@ func (o *oracle) impliedKey(path string) []string {
 	return append([]string{ld}, rest...)
 }
 
+// indexKey: the key under which the loader that owns the path indexes it (what HasEntry / Discover consult): like
+// impliedKey, except that the reserved top-level files of a module keep their bare names `init` / `init_typeset`
+func (o *oracle) indexKey(path string) []string {
+	ld := loaderOf(path)
+	if ld == "" {
+		return nil
+	}
+	segs := lowerSegs(strings.Split(strings.TrimSuffix(path, ".pp"), "/"))
+	if ld == "g" {
+		return segs[2:]
+	}
+	rest := segs[3:]
+	if !moduleRelative(ld) {
+		return rest
+	}
+	raw := strings.Split(strings.TrimSuffix(path, ".pp"), "/")
+	if len(rest) == 1 && (raw[3] == "init" || raw[3] == "init_typeset") {
+		return rest
+	}
+	return append([]string{ld}, rest...)
+}
+
+// hasExpected: what HasEntry of a FILE loader must answer for the key — a core type, or a file whose derived name is the
+// key below the loader or below its parent (the loader chain of the context's loader; no routing, no cache)
+func (o *oracle) hasExpected(key []string) (want bool, decided bool) {
+	var chain []string
+	switch {
+	case o.s.via == "g":
+		chain = []string{"g"}
+	case strings.HasPrefix(o.s.via, "m:"):
+		chain = []string{"g", o.s.via[2:]}
+	case strings.HasPrefix(o.s.via, "f:"):
+		chain = []string{o.s.via[2:]}
+	default:
+		return false, false // the dependency loader answers from its cache only
+	}
+	if len(key) == 1 && staticNames[key[0]] {
+		return true, true
+	}
+	for i := range o.s.files {
+		p := o.paths[&o.s.files[i]]
+		for _, ld := range chain {
+			if loaderOf(p) == ld && keyEq(o.indexKey(p), key) {
+				return true, true
+			}
+		}
+	}
+	return false, true
+}
+
 var validPartRx = regexp.MustCompile(`\A[A-Za-z][0-9A-Za-z_]*\z`)
 
 var staticNames = map[string]bool{"integer": true, "string": true, "variant": true}
@@ -438,6 +488,18 @@ func judge(s spec, outs []outcome, total map[string]int, out string, strict bool
 	answers := map[string]string{}     // key → first found/notfound answer
 	for i, l := range s.lookups {
 		oc := outs[i]
+		if l.op == "has" {
+			// HasEntry of a file loader: true exactly when a file sits where the loader's kind of path derives the name
+			tags["has"] = true
+			if want, ok := o.hasExpected(lowerSegs(splitName(l.name))); ok && want != oc.has {
+				if oc.has {
+					note("has-without-file", fmt.Sprintf("HasEntry(%s) is true although no file sits at its derived path", l.name))
+				} else {
+					note("has-misses-file", fmt.Sprintf("HasEntry(%s) is false although a file sits at its derived path", l.name))
+				}
+			}
+			continue
+		}
 		if l.op != "load" {
 			tags[l.op] = true
 			continue
